@@ -74,6 +74,15 @@ MUTANTS = [
          "        if rtf_attrs.subline_by is not None and df.width > 2:\n"
          "            df.drop_in_place(df.columns[-1])\n"),
     ]),
+    ("c14_hashseed_dependent_colour_order", "C14", True, [
+        # colour table and indices follow set iteration order: two fresh interpreters disagree
+        ("rtflite/services/color_service.py",
+         "            sorted_colors = sorted(\n                validated_colors, key=lambda x: self._name_to_type[x]\n            )\n",
+         "            sorted_colors = list(validated_colors)\n"),
+        ("rtflite/services/color_service.py",
+         "        sorted_colors = sorted(validated_colors, key=lambda x: self._name_to_type[x])\n\n        try:",
+         "        sorted_colors = list(validated_colors)\n\n        try:"),
+    ]),
     ("c14_control_lru_cache_fonts", "C14", False, [
         ("rtflite/strwidth.py",
          "    font_obj = ImageFont.truetype(str(font_path), size=size_param)",
